@@ -2,7 +2,7 @@
 (* Trace validation of append / extend histories replayed on real BatchRequest / BatchResponse. *)
 EXTENDS BatchIds, TraceBase
 
-TraceInit == tid \in 1..NTraces /\ l = 1 /\ InitWith(Traces[tid].scn.kind)
+TraceInit == tid \in 1..NTraces /\ l = 1 /\ InitWith(Traces[tid].scn.kind, Traces[tid].scn.strict)
 
 \* one event per operation, logged after it returned or raised: verdict + what the batch then exposes
 \* through iteration (items), through to_json (json_items) and through len (n)
